@@ -397,6 +397,9 @@ func execCont(op []string) string {
 		if out.Kind == "cdc.LimitExceeded" {
 			return "computation-limit"
 		}
+		if out.Err != nil && strings.Contains(out.Err.Error(), "instruction count exceeds the maximum") {
+			return "program-too-large" // VM compiler limit on the generated transaction: outside the model
+		}
 		if out.Class != "none" {
 			head = "err:" + contErrKind(out)
 			if dbg {
@@ -723,6 +726,9 @@ func genCont(c *hx.Ctx) {
 			total = 200 + r.Intn(2800)
 		}
 		ntx := 2 + r.Intn(7)
+		if total/ntx > 300 { // keep a generated transaction below the VM compiler's function-size limit
+			ntx = total/300 + 1
+		}
 		var txs []string
 		for j := 0; j < ntx; j++ {
 			mode := r.Pick([]string{"M", "R"})
